@@ -128,7 +128,7 @@ def register(reg):
     @reg.contract
     class Init(Contract):
         key = H2 + ".__init__"
-        props = ("C01", "C06", "C09", "C12")
+        props = ("C01", "C06", "C09", "C12", "C13", "C08")
         params = {"keepalive_expiry": "opt:real"}
 
         def ensures(self, c):
@@ -137,6 +137,10 @@ def register(reg):
                 ("starts_idle_without_expiry", ("C01", "C09"), z3.And(F(c, s, "H2._state") == IDLE, c.new(s, "H2._expire_at").none)),
                 ("stores_stream_and_origin", ("C06", "C01"), z3.And(F(c, s, "H2._network_stream") == c.args["stream"].t, F(c, s, "H2._origin") == c.args["origin"].t)),
                 ("stores_expiry", ("C09",), c.eng.z_bool(c.eng.eq(c.st, c.new(s, "H2._keepalive_expiry"), c.args["keepalive_expiry"]))),
+                # the reader parks in the network read holding the read lock: a writer (another stream's HEADERS / DATA /
+                # WINDOW_UPDATE) must never need that lock, or streams wedge each other (wave-4 seeds C08-w4-1 / C13-w4-1)
+                ("read_write_state_and_init_locks_are_four_distinct_locks", ("C12", "C13", "C08"), z3.Distinct(
+                    F(c, s, "H2._read_lock"), F(c, s, "H2._write_lock"), F(c, s, "H2._state_lock"), F(c, s, "H2._init_lock"))),
                 ("no_streams_no_goaway_no_errors", ("C12", "C01"), z3.And(c.new(s, "H2._events").size(c.eng, c.st) == 0, F(c, s, "H2._connection_terminated") == 0, z3.Not(F(c, s, "H2._connection_error")), z3.Not(F(c, s, "H2._used_all_stream_ids")), z3.Not(F(c, s, "H2._sent_connection_init")))),
             ]
 
@@ -415,7 +419,7 @@ def register(reg):
     @reg.contract
     class ReceiveEvents(Contract):
         key = H2 + "._receive_events"
-        props = ("C01", "C02", "C12", "C13", "C14", "C15", "C08")
+        props = ("C01", "C02", "C12", "C13", "C14", "C15", "C08", "C20")
         params = {"stream_id": "opt:int"}
         modifies = ("NS.pending", "NS.written", "X.ver", "X.closed", "X.queue_ver", "H2._events", "H2._connection_terminated", "H2._read_exception", "H2._write_exception",
                     "H2._connection_error", "H2._max_streams", "H2._request_count", "Sem.permits", "SemG.mine")
